@@ -19,3 +19,5 @@ from props import _groups as _G
 UNITS = _G.with_groups(PROPERTY, UNITS, _G.READERS, _G.VALIDATION, _G.CHECKS, _G.WRITERS)
 UNITS += [PR.unit_late_classes()]
 UNITS += [VIO.unit_writer_sweep().also("C20")]
+from contracts import history as HI
+UNITS += [HI.unit_history_sweep().also("C20")]
